@@ -2,7 +2,7 @@
    each lake case (as [col] literals), their real decoding, what the real
    vam.CountByString / vam.Sum computed from them, and what the real planner
    decided; these functions return the indices where the model differs. *)
-From ZV Require Import Base.Prelude Model.Vam.
+From ZV Require Import Base.Prelude Model.Vam Model.VamTail.
 Local Open Scope Z_scope.
 
 Inductive cbobs := CBPanic | CBTable (rows : list (bytes * Z)) (nulls : Z).
@@ -80,3 +80,10 @@ Definition head_ok (c : head_case) : bool :=
   let '(limit, scopes, obs) := c in
   list_eqb (list_eqb Nat.eqb) (head_scopes limit O scopes) obs.
 Definition head_mismatches (l : list head_case) : list N := mism head_ok 0 l.
+
+(* Tail: (limit, scopes as batches of values, observed emitted vectors per scope) *)
+Definition tail_case := (nat * list (list (list Z)) * list (list (list Z)))%type.
+Definition tail_ok (c : tail_case) : bool :=
+  let '(limit, scopes, obs) := c in
+  list_eqb (list_eqb (list_eqb Z.eqb)) (tail_scopes limit scopes) obs.
+Definition tail_mismatches (l : list tail_case) : list N := mism tail_ok 0 l.
